@@ -71,6 +71,47 @@ Proof.
   - intros; eapply HI; eauto; lia.
 Qed.
 
+(* the same with an invariant that depends on the loop index (e.g. "l = m1 - i") *)
+Lemma for_from_ext_inv_idx {S} (I : nat -> S -> Prop) n lo (b1 b2 : nat -> S -> res S) s :
+  I lo s ->
+  (forall i s, lo <= i < lo + n -> I i s -> b1 i s = b2 i s) ->
+  (forall i s s', lo <= i < lo + n -> I i s -> b2 i s = Ok s' -> I (Datatypes.S i) s') ->
+  for_from n lo b1 s = for_from n lo b2 s.
+Proof.
+  revert lo s; induction n as [|n IH]; intros lo s Hs H HI; cbn; auto.
+  rewrite (H lo s) by first [lia | assumption]. apply bind_ext_ok; intros s' E. apply IH.
+  - eapply HI; eauto; lia.
+  - intros; apply H; auto; lia.
+  - intros; eapply HI; eauto; lia.
+Qed.
+Lemma for_ext_inv_idx {S} (I : nat -> S -> Prop) lo hi (b1 b2 : nat -> S -> res S) s :
+  I lo s ->
+  (forall i s, lo <= i < hi -> I i s -> b1 i s = b2 i s) ->
+  (forall i s s', lo <= i < hi -> I i s -> b2 i s = Ok s' -> I (Datatypes.S i) s') ->
+  for_ lo hi b1 s = for_ lo hi b2 s.
+Proof.
+  intros Hs H HI. apply (for_from_ext_inv_idx I); auto.
+  - intros; apply H; auto; lia.
+  - intros; eapply HI; eauto; lia.
+Qed.
+
+(* a loop that threads an extra component nothing reads afterwards (a local re-assigned in every iteration) *)
+Lemma for_from_drop {S D} n lo (b1 : nat -> S * D -> res (S * D)) (b2 : nat -> S -> res S) s d :
+  (forall i s d, lo <= i < lo + n -> (let* r := b1 i (s, d) in Ok (fst r)) = b2 i s) ->
+  (let* r := for_from n lo b1 (s, d) in Ok (fst r)) = for_from n lo b2 s.
+Proof.
+  revert lo s d; induction n as [|n IH]; intros lo s d H; cbn [for_from]; [reflexivity|].
+  rewrite <- (H lo s d) by lia. destruct (b1 lo (s, d)) as [[s' d']|k]; cbn [bind fst]; [|reflexivity].
+  apply IH. intros; apply H; lia.
+Qed.
+Lemma for_drop_bind {S D Y} lo hi (b1 : nat -> S * D -> res (S * D)) (b2 : nat -> S -> res S) s d (K : S -> res Y) :
+  (forall i s d, lo <= i < hi -> (let* r := b1 i (s, d) in Ok (fst r)) = b2 i s) ->
+  (let* r := for_ lo hi b1 (s, d) in K (fst r)) = (let* s' := for_ lo hi b2 s in K s').
+Proof.
+  intros H. unfold for_. rewrite <- (for_from_drop (hi - lo) lo b1 b2 s d) by (intros; apply H; lia).
+  destruct (for_from (hi - lo) lo b1 (s, d)); reflexivity.
+Qed.
+
 (* the invariant is established by the loop as well *)
 Lemma for_from_inv_keep {S} (I : S -> Prop) n lo (b : nat -> S -> res S) s s' :
   I s -> (forall i s s', lo <= i < lo + n -> I s -> b i s = Ok s' -> I s') ->
@@ -89,6 +130,9 @@ Proof. unfold usub; destruct (Nat.leb_spec b a); [|discriminate]. intros E; inje
 Lemma usub_ok a b : b <= a -> usub a b = Ok (a - b).
 Proof. intros H; unfold usub. now apply Nat.leb_le in H as ->. Qed.
 
+Lemma isize_as_usize_nonneg z : (0 <= z)%Z -> isize_as_usize z = Z.to_nat z.
+Proof. intros H. unfold isize_as_usize. destruct (Z.ltb_spec z 0); [lia|reflexivity]. Qed.
+
 Lemma even_mod2 n : (n mod 2 =? 0) = Nat.even n.
 Proof.
   destruct (Nat.even n) eqn:E.
@@ -98,6 +142,18 @@ Proof.
     destruct H as [k ->]. rewrite Nat.even_mul in E. cbn in E. discriminate.
 Qed.
 
+(* ------------------------------------------------------------------ reads commute *)
+(* two steps that can only fail with an index panic may be performed in either order *)
+Definition idx_only {X} (e : res X) : Prop := (exists x, e = Ok x) \/ e = Panic Index.
+Lemma rd_idx_only {X} (l : list X) i : idx_only (rd l i).
+Proof. unfold idx_only, rd. destruct (nth_error l i); eauto. Qed.
+Lemma upd_idx_only {X} (l : list X) i x : idx_only (upd l i x).
+Proof. unfold idx_only, upd. destruct (i <? length l); eauto. Qed.
+Lemma bind_swap {X Y Z} (e1 : res X) (e2 : res Y) (k : X -> Y -> res Z) :
+  idx_only e1 -> idx_only e2 ->
+  (let* a := e1 in let* b := e2 in k a b) = (let* b := e2 in let* a := e1 in k a b).
+Proof. intros [[x ->]| ->] [[y ->]| ->]; reflexivity. Qed.
+
 (* ------------------------------------------------------------------ tactics *)
 (* use what is known about already executed steps: a step that returned Ok x is replaced by its value *)
 Ltac src_rew :=
@@ -105,6 +161,7 @@ Ltac src_rew :=
   | H : usub ?a ?b = Ok ?c |- _ => apply usub_Ok in H; let H1 := fresh in destruct H as [H1 ->]
   | H : negb _ = false |- _ => apply negb_false_iff in H
   | H : negb _ = true |- _ => apply negb_true_iff in H
+  | H : (_ || _) = false |- _ => apply orb_false_iff in H; let H1 := fresh in let H2 := fresh in destruct H as [H1 H2]
   | H : (_ =? _) = false |- _ => apply Nat.eqb_neq in H
   | H : (_ =? _) = true |- _ => apply Nat.eqb_eq in H
   | H : (_ <=? _) = false |- _ => apply Nat.leb_gt in H
@@ -114,6 +171,7 @@ Ltac src_rew :=
   | H : ?b <= ?a |- context [usub ?a ?b] => rewrite (usub_ok a b H); cbn [bind]
   | |- context [usub ?a ?b] => rewrite (usub_ok a b) by lia; cbn [bind]
   | H : ?e = Ok ?x |- context [bind ?e _] => rewrite H; cbn [bind]
+  | |- context [bind (bind _ _) _] => rewrite bind_assoc
   end.
 
 (* one structural step of an equality between two monadic terms of the same shape *)
@@ -121,7 +179,11 @@ Ltac src_step :=
   match goal with
   | |- _ = _ => reflexivity
   | |- bind ?e _ = bind ?e _ => apply bind_ext_ok; intros ? ?
-  | |- bind _ _ = bind _ _ => apply bind_ext2; [| intros ? ?]
+  | |- bind ?e1 _ = bind ?e2 _ => unify e1 e2; apply bind_ext_ok; intros ? ?
+  | |- bind (for_ _ _ _ _) _ = bind (for_ _ _ _ _) _ => apply bind_ext2; [| intros ? ?]
+  | |- bind (for_rev _ _ _ _) _ = bind (for_rev _ _ _ _) _ => apply bind_ext2; [| intros ? ?]
+  | |- bind (if _ then _ else _) _ = bind (if _ then _ else _) _ => apply bind_ext2; [| intros ? ?]
+  | |- bind (bind _ _) _ = bind (bind _ _) _ => apply bind_ext2; [| intros ? ?]
   | |- for_ ?lo ?hi _ ?s = for_ ?lo ?hi _ ?s => apply for_ext; intros ? ? ?
   | |- for_rev ?lo ?hi _ ?s = for_rev ?lo ?hi _ ?s => apply for_rev_ext; intros ? ? ?
   | |- (if ?c then _ else _) = (if ?c then _ else _) => destruct c eqn:?
@@ -131,7 +193,13 @@ Ltac src_step :=
   | |- context [snd ?p] => is_var p; destruct p; cbn [fst snd]
   | |- Ok _ = Ok _ => f_equal
   end.
-Ltac src_eq := repeat first [ progress src_rew | src_step ].
+(* the model performs two index-checked reads in the other order *)
+Ltac src_swap :=
+  match goal with
+  | |- bind ?e1 _ = bind ?e2 _ =>
+      etransitivity; [ apply (bind_swap e1 e2); apply rd_idx_only | ]
+  end.
+Ltac src_eq := repeat first [ progress src_rew | progress cbn [fst snd] | src_step ].
 
 (* ------------------------------------------------------------------ loops over lists: push / fold / tabulate / update in place *)
 Section ListLoops.
